@@ -15,7 +15,7 @@ import (
 func init() {
 	Register(&Property{
 		ID:    "C08",
-		Floor: 55,
+		Floor: 75,
 		Clauses: "server send-side flow control: outflow.n is written only by outflow.take/add and outflow.conn only by setConnFlow/newStream; newStream links the stream window to the connection window and credits it with initialStreamSendWindowSize; " +
 			"available() returns a value <= its own window and takes the connection window into account; take() refuses amounts above available() and debits stream and connection window by the same amount; " +
 			"DATA reaches the Framer only through writeData.writeFrame / startFrameWrite, startFrameWrite is called only by scheduleFrameWrite with a scheduler Pop result or a literal non-DATA request, " +
